@@ -83,6 +83,9 @@ theorem Pc.forall2_of_all {P : Pc → Pc → Bool} (h : Pc.all.all (fun p => Pc.
     P p q = true :=
   Pc.forall_of_all (Pc.forall_of_all (P := fun p => Pc.all.all (P p)) h p) q
 
+theorem pcne {p q : Pc} (h : (p == q) = false) : p ≠ q := by
+  intro hc; subst hc; simp at h
+
 /-- control points of the `finally` block -/
 def finPc : Pc → Bool
   | .finTuningEnd | .finAll | .finStatus | .finStop | .finStopDel | .finDel | .hfOut | .hfErr | .done
